@@ -8,6 +8,7 @@ ROOT = os.path.dirname(os.path.dirname(os.path.abspath(__file__)))
 sys.path.insert(0, ROOT)
 
 _WORLD = None
+EXTRACT_PATH = os.path.join(ROOT, "build", "extract.json")
 
 
 def load_contracts():
@@ -19,20 +20,24 @@ def world():
     global _WORLD
     if _WORLD is None:
         from pyvc.world import World
-        with open(os.path.join(ROOT, "build", "extract.json")) as fh:
+        with open(EXTRACT_PATH) as fh:
             _WORLD = World(json.load(fh))
         load_contracts()
     return _WORLD
 
 
 def job(args):
-    kind, name, prop, timeout, extra = args
+    global EXTRACT_PATH
+    kind, name, prop, timeout, extra, xpath = args
+    EXTRACT_PATH = xpath
     from pyvc import verify
     w = world()
+    mark = len(w.axioms)
     if kind == "fn":
         r = verify.verify_function(w, name, prop, timeout, refine_of=extra)
     else:
         r = verify.verify_lemma(w, name, prop, timeout)
+    del w.axioms[mark:]
     return r.__dict__
 
 
@@ -52,24 +57,34 @@ def plan(prop):
     return jobs
 
 
+def run(prop, tier, only=None, serial=False):
+    timeout = 10000 if tier == "quick" else 60000
+    jobs = [(k, n, prop, timeout, x, EXTRACT_PATH) for k, n, x in plan(prop) if only is None or only in n]
+    t0 = time.time()
+    if serial or len(jobs) <= 1:
+        results = [job(j) for j in jobs]
+    else:
+        with ProcessPoolExecutor(max_workers=min(16, len(jobs))) as ex:
+            results = list(ex.map(job, jobs))
+    out = {"property": prop, "tier": tier, "results": results, "wall_s": round(time.time() - t0, 2),
+           "z3": __import__("z3").get_version_string()}
+    with open(os.path.join(ROOT, "build", f"{prop}.obligations.json"), "w") as fh:
+        json.dump(out, fh, indent=1)
+    return out
+
+
 def main():
+    global EXTRACT_PATH
     ap = argparse.ArgumentParser()
     ap.add_argument("prop")
     ap.add_argument("--tier", default="quick")
     ap.add_argument("--only", default=None)
     ap.add_argument("--serial", action="store_true")
+    ap.add_argument("--extract", default=None)
     a = ap.parse_args()
-    timeout = 10000 if a.tier == "quick" else 60000
-    jobs = [(k, n, a.prop, timeout, x) for k, n, x in plan(a.prop) if a.only is None or a.only in n]
-    t0 = time.time()
-    if a.serial or len(jobs) <= 1:
-        results = [job(j) for j in jobs]
-    else:
-        with ProcessPoolExecutor(max_workers=min(16, len(jobs))) as ex:
-            results = list(ex.map(job, jobs))
-    out = {"property": a.prop, "tier": a.tier, "results": results, "wall_s": round(time.time() - t0, 2)}
-    with open(os.path.join(ROOT, "build", f"{a.prop}.obligations.json"), "w") as fh:
-        json.dump(out, fh, indent=1)
+    if a.extract:
+        EXTRACT_PATH = a.extract
+    results = run(a.prop, a.tier, a.only, a.serial)["results"]
     for r in results:
         obs = r["obligations"]
         bad = [o for o in obs if o["verdict"] != "proved"]
